@@ -10,7 +10,7 @@ import sys
 V = os.path.dirname(os.path.dirname(os.path.abspath(__file__)))
 ids = [a for a in sys.argv[1:] if not a.startswith("-")]
 if not ids:
-    ids = json.load(open(os.path.join(V, "harness", "claimed.json")))
+    ids = sorted(d for d in os.listdir(os.path.join(V, "seeded")))
 ids = [i for i in ids if os.path.exists(os.path.join(V, "seeded", i, "patch.diff"))]
 
 
